@@ -2,7 +2,7 @@
    main_loop, identifier_or_label (three contexts decided by the previous token), number, ignore, push with the
    slice original[start:end], and float(str) on exact decimals.  Model only. *)
 From Coq Require Import ZArith QArith Bool List.
-From PV Require Import Base.Num Base.Outcome Circuit.Tree.
+From PV Require Import Base.Float53 Base.Num Base.Outcome Circuit.Tree.
 Import ListNotations.
 Open Scope N_scope.
 
@@ -46,7 +46,9 @@ Fixpoint take_digits (l : str) : str * str :=
 Definition two_pow_1024 : Z := Z.pow 2 1024.
 Definition overflow_threshold : Q := inject_Z (two_pow_1024 - Z.pow 2 970).     (* DBL_MAX + half an ulp *)
 
-(* exact value of mantissa * 10^scale, rounded to the double range the way float() does at the extremes *)
+Definition min_normal : Q := 1 # (Z.to_pos (Z.pow 2 1022)).
+
+(* value of mantissa * 10^scale as float() returns it: correctly rounded in the normal range, saturating at the extremes *)
 Definition dec_to_xnum (neg : bool) (m : Z) (scale : Z) (ndig : Z) : xnum :=
   if (m =? 0)%Z then Fin 0
   else if (310 <? scale + ndig)%Z then (if neg then NInf else PInf)
@@ -54,7 +56,8 @@ Definition dec_to_xnum (neg : bool) (m : Z) (scale : Z) (ndig : Z) : xnum :=
   else
     let q := (inject_Z m * Qpower (10 # 1) scale)%Q in
     if Qle_bool overflow_threshold q then (if neg then NInf else PInf)
-    else Fin (Qred (if neg then - q else q)).
+    else if Qle_bool min_normal q then Fin (fl53 (if neg then - q else q))     (* float(): correctly rounded binary64 *)
+    else Fin (Qred (if neg then - q else q)).                                 (* subnormal range: kept exact, compared at 2^-48 *)
 
 (* None = float() raises ValueError *)
 Definition float_of_str (s : str) : option xnum :=
